@@ -106,6 +106,9 @@ func unpackStreamReader[T any](isr streamReader) (*schema.StreamReader[T], bool)
 	typ := generic.TypeOf[T]()
 	if typ.Kind() == reflect.Interface {
 		return schema.StreamReaderWithConvert(isr.toAnyStreamReader(), func(t any) (T, error) {
+			if v, ok := assertType[T](t); ok {
+				return v, nil
+			}
 			return t.(T), nil
 		}), true
 	}
